@@ -69,7 +69,7 @@ structure Exch (m m' : Mgr) (i : Nat) : Prop where
 structure SwapOK (P : Mgr → Prop) (R : Mgr → Mgr → Prop) : Prop where
   refl : ∀ m, R m m
   trans : ∀ a b c, R a b → R b c → R a c
-  vars : ∀ m, P m → VarsOK m.tbl
+  vars : ∀ m, P m → OrderOK m.tbl
   /-- every element of `bdd.roots` is a node (they are held) -/
   roots : ∀ m, P m → ∀ r ∈ m.roots, m.mem r = true
   step : ∀ m i, P m → i + 1 < m.nvars →
@@ -440,7 +440,7 @@ theorem sortToOrder_sorted (S : SwapOK P R) (order : List (String × Int)) (m : 
   · omega
 
 /-- the requested order is a bijection of the declared variables onto `0..n-1` -/
-structure OrderOK (order : List (String × Int)) (m : Mgr) : Prop where
+structure ReqOrder (order : List (String × Int)) (m : Mgr) : Prop where
   len : order.length = m.nvars
   cover : ∀ i, i < m.nvars → ∃ v p, m.tbl.l2v[i]? = some v ∧ order.lookup v = some p
   range : ∀ v p, order.lookup v = some p → 0 ≤ p ∧ p < m.nvars
@@ -449,7 +449,7 @@ structure OrderOK (order : List (String × Int)) (m : Mgr) : Prop where
 /-- **`_sort_to_order` reaches exactly the requested order**: afterwards
 `level_of_var(v) = order[v]` for every variable and `var_at_level(order[v]) = v`. -/
 theorem sortToOrder_exact (S : SwapOK P R) (order : List (String × Int)) (m : Mgr) (hP : P m)
-    (ho : OrderOK order m) :
+    (ho : ReqOrder order m) :
     OkOrSched (fun _ m' => P m' ∧ R m m' ∧ m'.nvars = m.nvars ∧
         ∀ v p, order.lookup v = some p → m.tbl.vars.contains v = true →
           m'.tbl.vars[v]? = some p.toNat ∧ m'.tbl.l2v[p.toNat]? = some v)
